@@ -311,11 +311,18 @@ GetOK(d, req) ==
 
 (* --------------------------- collection formats ------------------------- *)
 SepOf(cf) == CASE cf = "ssv" -> 32 [] cf = "tsv" -> 9 [] cf = "pipes" -> 124 [] OTHER -> 44
-IsSpaceB(b) == b \in {9, 10, 11, 12, 13, 32}
+\* strings.TrimSpace: the UTF-8 encodings of the code points with unicode.IsSpace (U+0009-000D, 0020, 0085, 00A0, 1680,
+\* 2000-200A, 2028, 2029, 202F, 205F, 3000); an ill-formed byte is never white space
+SpaceSeqs == { <<b>> : b \in {9, 10, 11, 12, 13, 32} } \cup { <<194, 133>>, <<194, 160>>, <<225, 154, 128>> }
+             \cup { <<226, 128, b>> : b \in (128..138) \cup {168, 169, 175} } \cup { <<226, 129, 159>>, <<227, 128, 128>> }
+SpacePrefixLen(s) == IF \E n \in 1..3 : Len(s) >= n /\ SubSeq(s, 1, n) \in SpaceSeqs
+                     THEN CHOOSE n \in 1..3 : Len(s) >= n /\ SubSeq(s, 1, n) \in SpaceSeqs ELSE 0
+SpaceSuffixLen(s) == IF \E n \in 1..3 : Len(s) >= n /\ SubSeq(s, Len(s) - n + 1, Len(s)) \in SpaceSeqs
+                     THEN CHOOSE n \in 1..3 : Len(s) >= n /\ SubSeq(s, Len(s) - n + 1, Len(s)) \in SpaceSeqs ELSE 0
 RECURSIVE TrimL(_)
-TrimL(s) == IF s # <<>> /\ IsSpaceB(Head(s)) THEN TrimL(Tail(s)) ELSE s
+TrimL(s) == IF SpacePrefixLen(s) > 0 THEN TrimL(SubSeq(s, SpacePrefixLen(s) + 1, Len(s))) ELSE s
 RECURSIVE TrimR(_)
-TrimR(s) == IF s # <<>> /\ IsSpaceB(s[Len(s)]) THEN TrimR(SubSeq(s, 1, Len(s) - 1)) ELSE s
+TrimR(s) == IF SpaceSuffixLen(s) > 0 THEN TrimR(SubSeq(s, 1, Len(s) - SpaceSuffixLen(s))) ELSE s
 Trim(s) == TrimR(TrimL(s))
 
 RECURSIVE SplitBy(_, _)
